@@ -31,10 +31,10 @@ def _classify(m):
 def obligations(tier):
     q = tier == 'quick'
     return [
-        Ob('index_entries', 'ch', '2 segments as 1..2 records, pad 0..2, checksum/encrypted on the first, trailing length on the second, 1..2 VRs; entries + whole fetch of record 0',
+        Ob('index_entries', 'ch', '2 segments as 1..2 records, pad 0..2, checksum/encrypted on the first, trailing length on the second, 1..2 VRs; entries + whole fetch of record 0 and three short (offset, length) slices, by entry number and by entry position',
            ['pIndex.LogicalRecordIndex._enter/get_file_logical_data/visible_record_positions', 'pFile.FileRead.iter_logical_record_positions/iter_visible_records/iter_LRSHs_for_visible_record/get_file_logical_data'],
            harness='C01_pfile', func='index_two_segments', timeout=170 if q else 900, parts=8, stubs=['SymFile']),
-        Ob('fetch_after_arbitrary_fetch', 'ch', '2 segments as 1..2 records, pad 0..1, 1..2 VRs; fetch record i after no fetch / a fetch of any record j',
+        Ob('fetch_after_arbitrary_fetch', 'ch', '2 segments as 1..2 records, pad 0..1, 1..2 VRs; fetch record i (by entry number and by entry position, whole and three short slices) after no fetch / a fetch of any record j',
            ['pIndex.LogicalRecordIndex.get_file_logical_data', 'pFile.FileRead.get_file_logical_data'],
            harness='C01_pfile', func='fetch_after_fetch', timeout=170 if q else 900, parts=8, stubs=['SymFile']),
         Ob('fetch_offset_length_quick', 'ch', '2 segments (10..12 payload bytes each) as 1..2 records, pad 0..1, 1..2 VRs; every offset 0..13 and length -1..13',
